@@ -33,6 +33,11 @@ def dput (d : Disk) (key : Path × Bool) (b : Blob) : Disk := (key, b) :: ddel d
 structure Tracer where
   ins : List Path
   del : List Path
+  /-- instrumentation only (reported by the driver, never read by the model): how often `insert`,
+  `delete` went through an unresolved node, and how often a binary node collapsed into an unresolved sibling -/
+  viaIns : Nat := 0
+  viaDel : Nat := 0
+  viaSib : Nat := 0
 deriving Repr
 
 def Tracer.onInsert (t : Tracer) (k : Path) : Tracer :=
@@ -114,6 +119,7 @@ def ins (e : Env) : Nat → Node → Path → Path → Node → M (Node × Bool)
       match resolve e.height e.disk h pre with
       | none => fail
       | some child => do
+        trace (fun t => { t with viaIns := t.viaIns + 1 })
         let res ← ins e fuel child pre key value
         if !res.2 then pure (child, false) else pure (res.1, true)
     | .value _ => fail     -- `panic("unknown node type")`
@@ -151,7 +157,9 @@ def del (e : Env) : Nat → Node → Path → Path → M (Node × Bool)
             let other ← (match other with
               | .hash h => (match resolve e.height e.disk h (pre ++ [!b]) with
                 | none => fail
-                | some cn => pure cn)
+                | some cn => do
+                  trace (fun t => { t with viaSib := t.viaSib + 1 })
+                  pure cn)
               | o => pure o : M Node)
             match other with
             | .edge q cc _ => do
@@ -168,6 +176,7 @@ def del (e : Env) : Nat → Node → Path → Path → M (Node × Bool)
       match resolve e.height e.disk h pre with
       | none => fail
       | some child => do
+        trace (fun t => { t with viaDel := t.viaDel + 1 })
         let res ← del e fuel child pre key
         if !res.2 then pure (child, false) else pure (res.1, true)
 
@@ -225,7 +234,7 @@ deriving Repr
 /-- `trie2.New(id, height, hashFn, db)` with a non-zero state commitment: the root is resolved from
 the database (absent -> empty trie). -/
 def openTrie (height : Nat) (kind : HashKind) (disk : Disk) (leafDeleteAbs : Bool := false) : T :=
-  ⟨height, kind, (resolve height disk (.felt 0) []).getD .nil, disk, ⟨[], []⟩, leafDeleteAbs⟩
+  ⟨height, kind, (resolve height disk (.felt 0) []).getD .nil, disk, { ins := [], del := [] }, leafDeleteAbs⟩
 
 def update (t : T) (key : Path) (v : HTerm) : Option T :=
   let e : Env := ⟨t.height, t.disk, t.leafDeleteAbs⟩
